@@ -136,64 +136,60 @@ def call_site(chk):
         raise AnalysisError('_load_subsamples: file loop not found')
     I = iloops[0]
     iv = I.target.id
+    # the keyword table handed to the kernels, by constant propagation of the per-file loop body for every
+    # (cleaned, subsample, file kind); values that are not constants are carried as canonical expression text
+    from ..core.pe import PE, Sym, Undecided, Raised
+    rows = f'halo_file_offsets[{iv}]:halo_file_offsets[{iv} + 1]'
+    outs_ok, okc_all = True, True
+    seen_calls = set()
     for cleaned in (True, False):
         for AB in ('A', 'B'):
-            env = {'AB': AB, 'cleaned': cleaned}
-            # evaluate the kwargs table
-            kw = {}
-            keys = None
-            slabexpr = None
-            for s in walk_no_nested(I):
-                if isinstance(s, ast.Assign) and unparse(s.targets[0]) == 'keys' and isinstance(s.value, ast.List):
-                    keys = [fs(e, AB) for e in s.value.elts]
-                if isinstance(s, ast.AugAssign) and unparse(s.target) == 'keys' and isinstance(s.value, ast.List):
-                    if _guard(s) in (None, 'cleaned') and (cleaned or _guard(s) is None):
-                        keys = (keys or []) + [fs(e, AB) for e in s.value.elts]
-                if isinstance(s, ast.Assign) and unparse(s.targets[0]) == 'slab_halos' and isinstance(s.value, ast.DictComp):
-                    slabexpr = s.value
-                if isinstance(s, ast.Assign) and unparse(s.targets[0]) == 'kwargs' and isinstance(s.value, ast.Dict):
-                    for k, v in zip(s.value.keys, s.value.values):
-                        kw[fs(k, AB)] = v
-                if isinstance(s, ast.Expr) and isinstance(s.value, ast.Call) and unparse(s.value.func) == 'kwargs.update' and isinstance(s.value.args[0], ast.Dict):
-                    g = _guard(s)
-                    if g is None or (g == 'cleaned' and cleaned):
-                        for k, v in zip(s.value.args[0].keys, s.value.args[0].values):
-                            kw[fs(k, AB)] = v
-
-            def col(v):
-                if isinstance(v, ast.Subscript) and unparse(v.value) == 'slab_halos':
-                    return fs(v.slice, AB)
-                return None
-            want = {'slab_read_offsets': f'npstart{AB}', 'slab_read_lens': f'npout{AB}'}
-            if cleaned:
-                want.update({'clean_slab_read_offsets': f'npstart{AB}_merge', 'clean_slab_read_lens': f'npout{AB}_merge'})
-            got = {k: col(kw.get(k)) for k in want}
-            extra_clean = [k for k in kw if k.startswith('clean_') and not cleaned]
-            okkeys = keys is not None and set(keys) == set(want.values())
-            okslab = slabexpr is not None and unparse(slabexpr.value) == f'self.halos[{slabexpr.generators[0].target.id}][halo_file_offsets[{iv}]:halo_file_offsets[{iv} + 1]]' \
-                and unparse(slabexpr.generators[0].iter) == 'keys'
-            chk.check(got == want and okkeys and okslab and not extra_clean, 'C01-R3', CAT, q, f'cleaned={cleaned},{AB}: read offsets/lengths <-> index columns of this file\'s halos',
-                      f'{got}', f'kernel receives {got} (need {want}); columns sliced {keys}; file rows ok={okslab}: particles would be read with another halo\'s (or subsample\'s) range',
-                      node=I, nf=got)
-    wo = [s for s in walk_no_nested(I) if isinstance(s, ast.Assign) and unparse(s.targets[0]) == 'slab_write_offsets']
-    okw = len(wo) == 1 and unparse(wo[0].value) == f'npstartAB_new[AB][halo_file_offsets[{iv}]:halo_file_offsets[{iv} + 1] + np.uint64(1)]'
-    kwo = any(isinstance(s, ast.Assign) and unparse(s.targets[0]) == 'kwargs' and "'slab_write_offsets': slab_write_offsets" in unparse(s.value) for s in walk_no_nested(I))
-    chk.check(okw and kwo, 'C01-R3', CAT, q, 'write offsets = new[off[i] : off[i+1] + 1] (one extra entry for the end of the last halo)', '',
-              f'write offsets slice is {unparse(wo[0].value) if wo else None}', node=wo[0] if wo else I)
+            got_all = {}
+            problems = []
+            for rvpid in ('rv', 'pid'):
+                pe = PE(symbolic=True)
+                env = {'AB': AB, 'cleaned': cleaned, 'rvpid': rvpid, 'colname': {'rv': 'rvint', 'pid': 'packedpid'}[rvpid]}
+                try:
+                    pe.block(I.body, env)
+                except (Undecided, Raised) as e:
+                    problems.append(f'{rvpid}: not decided ({e})')
+                    continue
+                kc_ = [c for c in pe.calls if c[0] in ('self._unpack_rv_subsamples', 'self._unpack_pid_subsamples')]
+                wantfn = 'self._unpack_rv_subsamples' if rvpid == 'rv' else 'self._unpack_pid_subsamples'
+                if [c[0] for c in kc_] != [wantfn]:
+                    problems.append(f'{rvpid}: kernel calls {[c[0] for c in kc_]}')
+                    okc_all = False
+                    continue
+                seen_calls.add(wantfn)
+                kw = kc_[0][2]
+                txt_ = {k: (v.text if isinstance(v, Sym) else repr(v)) for k, v in kw.items()}
+                got_all[rvpid] = txt_
+                want = {'slab_read_offsets': f"self.halos['npstart{AB}'][{rows}]", 'slab_read_lens': f"self.halos['npout{AB}'][{rows}]"}
+                if cleaned:
+                    want.update({'clean_slab_read_offsets': f"self.halos['npstart{AB}_merge'][{rows}]", 'clean_slab_read_lens': f"self.halos['npout{AB}_merge'][{rows}]"})
+                bad = {k: txt_.get(k) for k in want if txt_.get(k) != want[k]}
+                extra_clean = [k for k in txt_ if k.startswith('clean_') and not cleaned]
+                if bad or extra_clean:
+                    problems.append(f'{rvpid}: kernel receives {bad} (need {want}); cleaning arguments without cleaning: {extra_clean}')
+                wo_ = txt_.get('slab_write_offsets')
+                if wo_ != f"npstartAB_new['{AB}'][halo_file_offsets[{iv}]:halo_file_offsets[{iv} + 1] + np.uint64(1)]":
+                    problems.append(f'{rvpid}: write offsets slice is {wo_}')
+                if rvpid == 'rv' and not all(txt_.get(o) == f"self.subsamples.columns.get('{o}')" for o in ('pos', 'vel', 'rvint')):
+                    outs_ok = False
+            chk.check(not problems, 'C01-R3', CAT, q, f'cleaned={cleaned},{AB}: read offsets/lengths <-> index columns of this file\'s halos; write offsets = new[off[i] : off[i+1] + 1]',
+                      '', '; '.join(problems)[:700] + ': particles would be read with another halo\'s (or subsample\'s) range', node=I, nf=sorted(got_all.get('rv', {}).items())[:6])
     txt = [unparse(s) for s in walk_no_nested(fn) if isinstance(s, ast.stmt)]
     okoff = 'halo_file_offsets = np.empty(len(N_halo_per_file) + 1, dtype=np.uint64)' in txt and \
         'util.cumsum(N_halo_per_file, halo_file_offsets, initial=True, final=True)' in txt
     chk.check(okoff, 'C01-R3', CAT, q, 'file row ranges = prefix sums of the per-file halo counts', '', 'halo_file_offsets is no longer the prefix sum of the per-file counts', node=fn)
-    # calls forward **kwargs with the outputs of the subsample table
-    kc = [n for n in walk_no_nested(I) if isinstance(n, ast.Call) and unparse(n.func) in ('self._unpack_rv_subsamples', 'self._unpack_pid_subsamples')]
-    okc = len(kc) == 2 and all(any(k.arg is None and unparse(k.value) == 'kwargs' for k in c.keywords) for c in kc)
-    outs = {s.targets[0].slice.value: unparse(s.value) for s in walk_no_nested(I) if isinstance(s, ast.Assign) and isinstance(s.targets[0], ast.Subscript)
-            and unparse(s.targets[0].value) == 'kwargs' and isinstance(s.targets[0].slice, ast.Constant)}
-    okouts = all(outs.get(o) == f"self.subsamples.columns.get('{o}')" for o in ('pos', 'vel', 'rvint'))
+    # the rv kernel decodes into the subsample table's own columns; the pid kernel receives every PID field column
     pf = [s for s in walk_no_nested(I) if isinstance(s, ast.For) and unparse(s.iter) == 'bitpacked.PID_FIELDS']
     okpf = len(pf) == 1 and unparse(pf[0].body[0]) == f'kwargs[{pf[0].target.id}] = self.subsamples.columns.get({pf[0].target.id})'
-    chk.check(okc and okouts and okpf, 'C01-R3', CAT, q, 'kernels decode into the subsample table\'s own columns', '',
-              f'kernel calls ok={okc}; rv outputs {outs}; pid outputs loop ok={okpf}', node=I)
+    okc = okc_all and seen_calls == {'self._unpack_rv_subsamples', 'self._unpack_pid_subsamples'}
+    chk.check(okc and outs_ok and okpf, 'C01-R3', CAT, q, 'kernels decode into the subsample table\'s own columns', '',
+              f'kernel calls ok={okc}; rv outputs ok={outs_ok}; pid outputs loop ok={okpf}', node=I)
+    outs = {s.targets[0].slice.value: unparse(s.value) for s in walk_no_nested(I) if isinstance(s, ast.Assign) and isinstance(s.targets[0], ast.Subscript)
+            and unparse(s.targets[0].value) == 'kwargs' and isinstance(s.targets[0].slice, ast.Constant)}
     # R4
     cm = [s for s in walk_no_nested(fn) if isinstance(s, ast.Assign) and unparse(s.targets[0]) == 'colname']
     okcm = len(cm) == 1 and unparse(cm[0].value) == "{'rv': 'rvint', 'pid': 'packedpid'}[rvpid]"
